@@ -157,6 +157,82 @@ def drop_facts(prog, which='pipe'):
     return {'drop_impl': True, 'joins': joins}
 
 
+class ConstEval:
+    """Evaluates scalar locals of Pipe::new as functions of num_threads (_3): single-assignment locals defined by use / cast /
+    arithmetic / comparison over constants and other such locals.  Anything else evaluates to None (unknown)."""
+
+    def __init__(self, fn, env):
+        self.fn, self.env = fn, dict(env)
+        self.defs = {}
+        for b in fn.blocks.values():
+            if b.cleanup:
+                continue
+            for st in b.stmts:
+                if st.kind == 'assign' and not st.place.proj:
+                    self.defs.setdefault(st.place.local, []).append(st.rv)
+
+    def operand(self, op, depth=0):
+        if op.kind == 'const':
+            c = op.const
+            return c.value if c.kind in ('int', 'bool') else None
+        pl = op.place
+        v = self.local(pl.local, depth + 1)
+        for pr in pl.proj:
+            if pr[0] == 'field' and isinstance(v, tuple):
+                v = v[pr[1]]
+            elif pr[0] in ('deref', 'downcast'):
+                continue
+            else:
+                return None
+        return v
+
+    def local(self, l, depth=0):
+        if l in self.env:
+            return self.env[l]
+        ds = self.defs.get(l, [])
+        if len(ds) != 1 or depth > 12:
+            return None
+        rv = ds[0]
+        k, a = rv.kind, rv.a
+        if k == 'use':
+            return self.operand(a[0], depth)
+        if k == 'cast':
+            return self.operand(a[0], depth)
+        if k == 'binop':
+            x, y = self.operand(a[1], depth), self.operand(a[2], depth)
+            if x is None or y is None or isinstance(x, tuple) or isinstance(y, tuple):
+                return None
+            op = a[0]
+            if op in ('AddWithOverflow', 'SubWithOverflow', 'MulWithOverflow'):
+                r = {'A': x + y, 'S': x - y, 'M': x * y}[op[0]]
+                return (r, False)
+            f = {'Add': lambda: x + y, 'Sub': lambda: x - y, 'Mul': lambda: x * y, 'Gt': lambda: x > y, 'Ge': lambda: x >= y,
+                 'Lt': lambda: x < y, 'Le': lambda: x <= y, 'Eq': lambda: x == y, 'Ne': lambda: x != y}.get(op)
+            return f() if f else None
+        return None
+
+
+def worker_captures(prog, repo, num_threads):
+    """values of the scalar captures of the worker closure (e.g. a flag computed from num_threads) for one configuration:
+    {capture index: int / bool}; captures that are not scalars or cannot be evaluated are left out"""
+    line = impl_of(prog, r'^impl<O> Pipe<O>', repo)
+    fns = [f for n, f in prog.functions.items() if ('loading.rs:%d:' % line) in n]
+    new = [f for f in fns if f.name.endswith('>::new')][0]
+    new.parse()
+    ev = ConstEval(new, {3: num_threads})
+    out = {}
+    for b in new.blocks.values():
+        if b.cleanup:
+            continue
+        for st in b.stmts:
+            if st.kind == 'assign' and st.rv.kind == 'closure' and len(st.rv.a[1]) >= 3:      # the worker closure (several captures)
+                for idx, (name, op) in enumerate(st.rv.a[1]):
+                    v = ev.operand(op)
+                    if isinstance(v, (int, bool)) and not isinstance(v, tuple):
+                        out[idx] = v
+    return out
+
+
 def spawn_facts(prog, repo):
     """number of worker threads spawned by Pipe::new as a function of num_threads: the spawn loop iterates over the range
     start..num_threads (start read from the MIR); anything else is outside the model"""
@@ -168,14 +244,22 @@ def spawn_facts(prog, repo):
         if b.cleanup:
             continue
         for st in b.stmts:
-            m = re.search(r'Range::<(?:u8|usize)> \{ start: const (\d+)_(?:u8|usize), end: (?:move|copy) _\d+ \}', st.text or '')
+            m = re.search(r'Range::<(?:u8|usize)> \{ start: const (\d+)_(?:u8|usize), end: (?:move|copy) _(\d+) \}', st.text or '')
             if m:
-                starts.append(int(m.group(1)))
+                starts.append((int(m.group(1)), int(m.group(2))))
             elif re.search(r'RangeInclusive::<(?:u8|usize)>|Range::<(?:u8|usize)> \{ start: (?!const)', st.text or ''):
                 starts.append(None)
     if len(starts) != 1 or starts[0] is None:
-        raise Unsupported('MIRBMC: spawn loop of Pipe::new is not `for _ in <const>..num_threads`')
-    return {'spawn_start': starts[0]}
+        raise Unsupported('MIRBMC: spawn loop of Pipe::new is not `for _ in <const>..<expression over num_threads>`')
+    start, end_local = starts[0]
+    # the end of the range as a function of num_threads (evaluated for the configurations used: 1..4)
+    ends = {}
+    for T in (1, 2, 3, 4):
+        e = ConstEval(new[0], {3: T}).local(end_local)
+        if not isinstance(e, int) or isinstance(e, bool):
+            raise Unsupported('MIRBMC: the end of the spawn range of Pipe::new is not an arithmetic expression over num_threads')
+        ends[T] = e
+    return {'spawn_start': start, 'spawn_end': ends}
 
 
 def buffered_facts(prog, repo):
